@@ -598,6 +598,49 @@ def rule_r6(facts, col, cg=None):
                                 "exists for exactly this reason)", {})
 
 
+TIME_SOURCES = ("std::time::Instant::", "std::time::Duration::checked_sub", "std::time::Duration::saturating_sub", "std::time::Duration::is_zero",
+                "std::sync::WaitTimeoutResult::timed_out", "std::time::SystemTime::")
+
+
+def rule_r10(facts, col, rule_id="C04.R10", cg=None):
+    """a stream wait gives control back after a bounded time: a call that (transitively) sleeps on a Condvar with a timeout is not
+    on a CFG cycle - unless that cycle has an exit decided by a time source (an explicit deadline loop).  A wait that loops until
+    its amount is there or the peer is gone never returns to a runner whose peers are alive but stalled: the cancel flag is
+    polled between work() calls only, so cancel() and a failing block are never noticed."""
+    cg = cg or CallGraph(facts)
+    waiters = cg.transitive(set(CONDVAR_TIMED), depth=3)
+    n = 0
+    for body in facts.bodies:
+        if body.file not in ("src/stream.rs", "src/circular_buffer.rs") or body.kind == "closure":
+            continue
+        for bb, t in body.calls():
+            qs = Body.callee_qs(t)
+            if not any(q in CONDVAR_TIMED or q in waiters for q in qs):
+                continue
+            n += 1
+            key = "%s:%s" % (body.q, t["f"].get("name"))
+            comp = scc_of(body, bb)
+            if not comp:
+                col.ok(rule_id, key, body.where(bb), "timed wait not in a loop: control returns after at most one timeout")
+                continue
+            timed_exit = False
+            for (u, v) in loop_exits(body, comp):
+                tu = body.term(u)
+                if tu["k"] != "switch":
+                    continue
+                for x in walk(switch_discr_expr(body, u)):
+                    if x.k == "call" and any((x.q or "").startswith(p_) or (x.rq or "").startswith(p_) for p_ in TIME_SOURCES):
+                        timed_exit = True
+            if timed_exit:
+                col.ok(rule_id, key, body.where(bb), "wait loop with a deadline exit")
+            else:
+                col.bad(rule_id, key, body.where(bb),
+                        "a timed wait is repeated in a loop that is left only when the amount is there or the peer is gone: with a live but "
+                        "stalled peer the call never returns, the block thread never gets back to its cancel poll, and run() hangs in "
+                        "join() after cancel() or after another block failed", {})
+    return n
+
+
 class _Retag5:
     """C05.R1 instances are reported under C04.R5 here (the runner must act on wait()'s verdict and on nothing weaker)"""
     def __init__(self, ctx):
@@ -623,6 +666,8 @@ def run(ctx):
     rule_r3(facts, ctx)
     rule_r4(facts, ctx)
     rule_r6(facts, ctx, cg)
+    rule_r10(facts, ctx, cg=cg)
+    ctx.floor("C04.R10", 4, "calls that sleep on a Condvar with a timeout (Buffer::wait_for_read/write and their callers, NCReadStream::wait)")
     rule_r9(facts, ctx)
     ctx.floor("C04.R9", 2, "ReadStream::wait_for_read and NCReadStream::wait")
     rule_r8(facts, ctx)
